@@ -234,35 +234,38 @@ fn cli_path(w: &World, init: usize, acts: &[Act], end: &FileState) -> Result<(),
 
 pub fn run(ctx: &Ctx, rep: &mut Report) {
     let thorough = ctx.tier.thorough();
-    let k = 7usize;
-    let w = World::new(k, ctx.seed, thorough);
-    let depth = if thorough { 5 } else { 3 };
-    let out = bfs::explore(&w, &w.starts.clone(), depth, ctx, rep, &format!("k={k}"), true);
-    rep.states = 0; // distinct states are counted by the parent from the union of state hashes
-    rep.extra.insert("max_depth_reached".into(), json!(out.max_depth));
-    rep.extra.insert("depth_bound".into(), json!(depth));
-    // sanity ("sometimes") observations so that the run is not vacuous
-    for (_, acts, end) in &out.paths {
-        let kinds: std::collections::BTreeSet<String> = acts.iter().map(|a| format!("{a:?}").split('(').next().unwrap().to_string()).collect();
-        if kinds.len() >= 2 {
-            rep.corner("path_with_two_or_more_kinds_of_operation");
+    // (k, depth): the main search at k=7 (64-bit) and a shallower one at k=33 (128-bit files)
+    let worlds: Vec<(usize, usize)> = if thorough { vec![(7, 5), (33, 3)] } else { vec![(7, 3), (33, 2)] };
+    for (k, depth) in worlds {
+        let w = World::new(k, ctx.seed, thorough);
+        let out = bfs::explore(&w, &w.starts.clone(), depth, ctx, rep, &format!("k={k}"), true);
+        rep.states = 0; // distinct states are counted by the parent from the union of state hashes
+        rep.extra.insert(format!("max_depth_reached_k{k}"), json!(out.max_depth));
+        rep.extra.insert(format!("max_depth_bound_k{k}"), json!(depth));
+        // sanity ("sometimes") observations so that the run is not vacuous
+        for (_, acts, end) in &out.paths {
+            let kinds: std::collections::BTreeSet<String> = acts.iter().map(|a| format!("{a:?}").split('(').next().unwrap().to_string()).collect();
+            if kinds.len() >= 2 {
+                rep.corner("path_with_two_or_more_kinds_of_operation");
+            }
+            let fresh: Vec<usize> = end.table.rows.values().map(|r| r.iter().filter(|b| **b != b'-').count()).collect();
+            if fresh != end.counts {
+                rep.corner("state_with_stored_counts_differing_from_fresh_counts");
+            }
         }
-        let fresh: Vec<usize> = end.table.rows.values().map(|r| r.iter().filter(|b| **b != b'-').count()).collect();
-        if fresh != end.counts {
-            rep.corner("state_with_stored_counts_differing_from_fresh_counts");
+        // conformance: longest paths through the CLI
+        for (init, acts, end) in out.paths.iter().take(if thorough { 12 } else { 4 }) {
+            match cli_path(&w, *init, acts, end) {
+                Ok(()) => rep.traces_validated += 1,
+                Err(e) => rep.violate(format!("cli-path k={k} init={init} {acts:?}"), e, json!({"cli_path": format!("{acts:?}"), "init": init, "k": k})),
+            }
+            if rep.samples.len() < 3 {
+                rep.sample(json!({"k": k, "init": init, "history": acts.iter().map(|a| format!("{a:?}")).collect::<Vec<_>>(), "end_names": end.table.names, "end_rows": end.table.rows.len()}));
+            }
         }
-    }
-    // conformance: longest paths through the CLI
-    for (init, acts, end) in out.paths.iter().take(if thorough { 12 } else { 4 }) {
-        match cli_path(&w, *init, acts, end) {
-            Ok(()) => rep.traces_validated += 1,
-            Err(e) => rep.violate(format!("cli-path init={init} {acts:?}"), e, json!({"cli_path": format!("{acts:?}"), "init": init})),
+        if rep.capped {
+            return;
         }
-        if rep.samples.len() < 3 {
-            rep.sample(json!({"init": init, "history": acts.iter().map(|a| format!("{a:?}")).collect::<Vec<_>>(), "end_names": end.table.names, "end_rows": end.table.rows.len()}));
-        }
-    }
-    if !rep.capped {
         rep.completed.push(format!("BFS to depth {depth} from 3 start tables at k={k}"));
     }
 }
